@@ -16,8 +16,9 @@ from ref import lp as R2
 from .common import viol, ImplRun, close, asset_nodes
 
 PROPERTY = "C09"
-RULE = ("E3: 4 base portfolios (mixed wacc + two-node storage; transport + spread contract; structured asset with inner assets; "
-        "linked plants MIP) x all permutations x asset-name tuples drawn from the pool {a,1a,11,1,a1,0,a_2,n} x node-name "
+RULE = ("E3: 6 base portfolios (mixed wacc + two-node storage; transport + spread contract; structured asset with inner assets; "
+        "linked plants MIP; assets on the same coarser grid with different wacc; structured asset with own life time over inner assets with own life times, "
+        "whose wrapped portfolio is permuted as well) x all permutations x asset-name tuples drawn from the pool {a,1a,11,1,a1,0,a_2,n} x node-name "
         "tuples from {n,1n,n1,1,in,out,hub,hub_south} x grids T=4 and T=12; distinct = canonical variant; non-trivial = base and "
         "variant optimal with non-zero dispatch")
 ASSUMPTIONS = ["per-asset dispatch is compared through the plug-in oracle (variant dispatch, relabelled, must be an optimum of the base "
@@ -50,6 +51,20 @@ def base_portfolio(name, g):
                  dict(type="Transport", name="A3", nodes=["N2", "N0"], min_cap=r(-2.0, g), max_cap=r(2.0, g))]
         return [dict(type="SimpleContract", name="A0", nodes=["N0"], price="p", min_cap=r(-5.0, g), max_cap=r(5.0, g)),
                 dict(type="StructuredAsset", name="A1", nodes=["N0"], portfolio=inner),
+                dict(type="SimpleContract", name="A4", nodes=["N0"], price="q", min_cap=0.0, max_cap=r(1.0, g))]
+    if name == "coarse_wacc":   # two assets on the same coarser grid of their own (same life time, same freq), discounted differently
+        cf = "12h" if g.T <= 4 else "4h"
+        return [dict(type="SimpleContract", name="A0", nodes=["N0"], price="p", min_cap=r(-5.0, g), max_cap=r(5.0, g)),
+                dict(type="SimpleContract", name="A1", nodes=["N0"], price="q", min_cap=0.0, max_cap=r(3.0, g), freq=cf, wacc=0.6),
+                dict(type="SimpleContract", name="A2", nodes=["N0"], price="ec", min_cap=r(-2.0, g), max_cap=0.0, freq=cf),
+                dict(type="Storage", name="A3", nodes=["N0"], size=8.0, cap_in=r(1.0, g), cap_out=r(2.0, g), start_level=0.0, end_level=0.0, freq=cf, wacc=0.2, cost_out=0.1)]
+    if name == "structured_win":   # a structured asset with a life time of its own over inner assets with and without own life times
+        inner = [dict(type="Storage", name="A2", nodes=["N2"], size=6.0, cap_in=r(1.0, g), cap_out=r(1.0, g), start_level=0.0, end_level=0.0,
+                      start=g.instant_iso(("gp", 2))),
+                 dict(type="Transport", name="A3", nodes=["N2", "N0"], min_cap=r(-2.0, g), max_cap=r(2.0, g)),
+                 dict(type="SimpleContract", name="A5", nodes=["N2"], price="ec", min_cap=0.0, max_cap=r(1.0, g), end=g.instant_iso(("gp", g.T - 1)))]
+        return [dict(type="SimpleContract", name="A0", nodes=["N0"], price="p", min_cap=r(-5.0, g), max_cap=r(5.0, g)),
+                dict(type="StructuredAsset", name="A1", nodes=["N0"], portfolio=inner, start=g.instant_iso(("gp", 1))),
                 dict(type="SimpleContract", name="A4", nodes=["N0"], price="q", min_cap=0.0, max_cap=r(1.0, g))]
     if name == "linked":
         p1 = dict(type="Plant", name="A2", nodes=["N0"], price="fuelc", min_cap=r(1.0, g), max_cap=r(4.0, g), start_costs=2.0, time_already_off=10)
@@ -106,7 +121,7 @@ def rename(assets, amap, nmap):
 
 def build_cases(tier):
     cases = []
-    bases = ["wacc_sto2", "transport", "structured", "linked"]
+    bases = ["wacc_sto2", "transport", "structured", "linked", "coarse_wacc", "structured_win"]
     grids = ["4x6h", "12x2h"]
     for base, gname in itertools.product(bases, grids):
         g = Grid.from_json(S.GRIDS[gname])
@@ -138,6 +153,16 @@ def build_cases(tier):
                     if c["key"] not in seen:
                         seen.add(c["key"])
                         cases.append(c)
+        if base == "structured_win":   # ... and every order of the wrapped portfolio (top-level order and names as given / one renaming)
+            n_in = len([a for a in assets if a["type"] == "StructuredAsset"][0]["portfolio"])
+            for ip in itertools.permutations(range(n_in)):
+                for perm in (tuple(range(top)), tuple(reversed(range(top)))):
+                    for nt in (None, name_tuples[1]):
+                        if ip == tuple(range(n_in)):
+                            continue
+                        c = dict(base=base, grid=gname, perm=list(perm), names=list(nt) if nt else None, nodeset=None, inner_perm=list(ip))
+                        c["key"] = chash(c)
+                        cases.append(c)
     stats = dict(explorer="E3 product", states=len(cases), transitions=len(cases), bound=dict(bases=bases, grids=grids, tier=tier))
     return cases, stats
 
@@ -154,6 +179,10 @@ def scenarios(case):
     nmap = dict(zip(nodes, case["nodeset"])) if case["nodeset"] else {}
     var = rename(assets, amap, nmap)
     var = [var[i] for i in case["perm"]]
+    if case.get("inner_perm"):
+        for a in var:
+            if a["type"] == "StructuredAsset":
+                a["portfolio"] = [a["portfolio"][i] for i in case["inner_perm"]]
     base_scn = dict(grid=gj, prices=prices, assets=assets, mode="mono")
     var_scn = dict(grid=gj, prices=prices, assets=var, mode="mono")
     return base_scn, var_scn, amap, nmap
@@ -163,7 +192,7 @@ def run_case(case):
     base_scn, var_scn, amap, nmap = scenarios(case)
     res = dict(status="ok", violations=[], counters={})
     V = res["violations"]
-    tags = ["base:" + case["base"], "grid:" + case["grid"]] + (["permuted"] if case["perm"] != sorted(case["perm"]) else []) + \
+    tags = ["base:" + case["base"], "grid:" + case["grid"]] + (["permuted"] if case["perm"] != sorted(case["perm"]) else []) + (["inner_permuted"] if case.get("inner_perm") else []) + \
            (["renamed_assets"] if case["names"] else []) + (["renamed_nodes"] if case["nodeset"] else [])
     ctag = [t for t in tags if not t.startswith("grid:")]
     # distinctness of the new names is a precondition of the property
